@@ -78,13 +78,17 @@ Definition enc_sl_run (evs : list sl_ev) : list Z := map enc_sl_obs (snd (sl_run
 Require Import CF.C05.SyncThreads.
 
 Definition enc_tobs (o : tobs) : Z :=
-  match o with OYield k => 10 + k | OStop => 1 | OInGet => 2 | ONone => 0 | ORaise => 3 | ONoop => 4 end.
+  match o with OYield k => 10 + k | OStop => 1 | OInGet => 2 | ONone => 0 | ORaise => 3 | ONoop => 4 | ORaiseAttr => 5 end.
 
 Definition enc_qitem (i : qitem) : Z := match i with QSample k => 10 + k | QDisc => 1 end.
 
 Definition enc_tsl (s : tsl) : list Z :=
-  [b2z (t_conn s); match t_cons s with CIdle => 0 | CInGet => 1 end; Z.of_nat (t_pend s); zlen (t_queue s)]
-  ++ map enc_qitem (t_queue s).
+  [b2z (t_conn s); match t_cons s with CIdle => 0 | CInGet => 1 end; Z.of_nat (t_pend s); b2z (t_reg s);
+   match t_cpos s with None => -1 | Some j => Z.of_nat j end]
+  ++ map (fun c => b2z (memz c (t_dreg s))) (t_own s)
+  ++ [b2z (t_link s)] ++ map (fun c => b2z (memz c (t_known s))) (t_own s)
+  ++ map (fun c => b2z (memz c (t_blk s))) (t_own s)
+  ++ [zlen (t_queue s)] ++ map enc_qitem (t_queue s).
 
 Fixpoint enc_sys_run (ls : list tsl) (evs : list sev) : list Z :=
   match evs with
